@@ -1,7 +1,7 @@
 (* C09 — pinned property theorems about the keep-alive part of the shared TransportService model
    (coq/Ts), in logical time. This file contains statements, `exact`, and Print Assumptions only. *)
 From Coq Require Import List NArith Bool.
-From V.Ts Require Import Model Proofs.
+From V.Ts Require Import Model Proofs Rearm Timing.
 Import ListNotations.
 Open Scope N_scope.
 
@@ -65,6 +65,95 @@ Theorem C09_idle_closes :
   ch_other_of c (s_chans s) = 0 -> strong s c = 0.
 Proof. exact idle_strong. Qed.
 Print Assumptions C09_idle_closes.
+
+(* the `insert(..).is_none()` guard: for every feasible history (fresh connection ids, at most
+   two open connections per peer, notifications only for open connections, answers only for open
+   requests) no (peer, connection) key ever has more than one armed sleep, and a tracked key has
+   exactly one *)
+Theorem C09_rearm_single :
+  forall tr ka T n0 k,
+  feasible 2 env0 (init ka T n0) tr = true ->
+  (cnt k (s_timers (final (init ka T n0) tr)) <= 1)%nat.
+Proof. exact rearm_single. Qed.
+Print Assumptions C09_rearm_single.
+
+Theorem C09_rearm_tracked_one :
+  forall tr ka T n0 k t,
+  feasible 2 env0 (init ka T n0) tr = true ->
+  kfind k (s_last (final (init ka T n0) tr)) = Some t ->
+  cnt k (s_timers (final (init ka T n0) tr)) = 1%nat.
+Proof. exact rearm_tracked_one. Qed.
+Print Assumptions C09_rearm_tracked_one.
+
+(* without the per-connection FIFO assumption the guard is not enough: activity reported for a
+   connection after its closed notification arms a second sleep next to the stale one *)
+Theorem C09_rearm_needs_fifo :
+  exists tr k, cnt k (s_timers (final (init true 300 0) tr)) = 2%nat.
+Proof.
+  exists [(0, EEst 0 1); (0, ESubIn 0 1 true); (0, EClosed 0 1); (0, ESubIn 0 1 true)], (0, 1).
+  vm_compute. reflexivity.
+Qed.
+Print Assumptions C09_rearm_needs_fifo.
+
+(* after every step every armed sleep is due strictly in the future, so a schedule that polls no
+   later than the earliest due time (on_time) always exists *)
+Theorem C09_sleeps_in_future :
+  forall s dt e k d,
+  In (k, d) (s_timers (fst (step s dt e))) -> s_now (fst (step s dt e)) < d.
+Proof. exact sleeps_future. Qed.
+Print Assumptions C09_sleeps_in_future.
+
+(* exactly at last + T: in any reachable state, if the next step does not jump over the due time
+   of an armed sleep (timers fire at their due time) and T > 0, a downgrade in that step happens
+   at precisely (time of the last keep-alive activity) + T *)
+Theorem C09_downgrade_exactly :
+  forall ka T n0 tr dt e p c,
+  let s := final (init ka T n0) tr in
+  on_time s dt -> 0 < s_T s ->
+  In (ODown p c) (snd (step s dt e)) ->
+  exists t, kfind (p, c) (s_act (fst (step s dt e))) = Some t /\
+            s_now (fst (step s dt e)) = t + s_T (fst (step s dt e)).
+Proof.
+  intros ka T n0 tr dt e p c s. apply downgrade_exact_step. apply inv_t_final. apply inv_t_init.
+Qed.
+Print Assumptions C09_downgrade_exactly.
+
+(* nothing tracked is ever overdue once the service has been polled: at every reachable state
+   each tracked connection's last activity is less than T ago (any history, any schedule) *)
+Theorem C09_never_overdue :
+  forall ka T n0 tr k t,
+  let s := final (init ka T n0) tr in
+  kfind k (s_last s) = Some t -> s_now s < t + s_T s.
+Proof.
+  intros ka T n0 tr k t s. apply (fresh_final tr (init ka T n0) (inv_t_init ka T n0) (fresh_inv_init ka T n0)).
+Qed.
+Print Assumptions C09_never_overdue.
+
+(* THE COMPOSED STATEMENT. For every feasible history, at every point:
+   (1) a handle that is Active has a keep-alive activity (per the independent specification)
+       that lies less than T in the past — so a handle is Inactive from last + T on;
+   (2) if the next step is on time and T > 0, any downgrade in it happens at exactly last + T
+       (never earlier — C09_not_before needs no schedule assumption at all —, never later);
+   (3) independently of the handle, while an open is in flight or a keep-alive substream lives
+       on connection c the channel keeps a strong sender: the idle mechanism cannot close it. *)
+Theorem C09_idle_close_exact :
+  forall tr ka T n0,
+  feasible 2 env0 (init ka T n0) tr = true ->
+  let s := final (init ka T n0) tr in
+  (forall k, handle_active (s_ctxs s) k = true ->
+     exists t, kfind k (s_last s) = Some t /\ kfind k (s_act s) = Some t /\
+               t <= s_now s /\ s_now s < t + s_T s) /\
+  (forall dt e p c, on_time s dt -> 0 < s_T s -> In (ODown p c) (snd (step s dt e)) ->
+     exists t, kfind (p, c) (s_act (fst (step s dt e))) = Some t /\
+               s_now (fst (step s dt e)) = t + s_T (fst (step s dt e))) /\
+  (forall c, 0 < pend_on c (s_pend s) \/ 0 < ch_held_of c (s_chans s) -> 0 < strong s c).
+Proof.
+  intros tr ka T n0 F s. split; [|split].
+  - intros k H. exact (active_within_T tr ka T n0 k F H).
+  - intros dt e p c. apply downgrade_exact_step. apply inv_t_final. apply inv_t_init.
+  - intros c. apply busy_strong.
+Qed.
+Print Assumptions C09_idle_close_exact.
 
 (* non-vacuity: T = 300; established at 0, an open at 200 (keep-alive protocol) moves the close
    from 300 to 500: polls at 400 (re-arm) and 600 (downgrade); the permit in flight keeps the
